@@ -15,6 +15,7 @@ use hls_m3u8::types::{
 };
 use hls_m3u8::{MasterPlaylist, MediaPlaylist};
 
+use crate::builder::{build_segment, BADSCRIPT};
 use crate::{guard, observe, text_arg, BADINPUT, BADOP, ERR, PANIC};
 
 // ---------------------------------------------------------------- laws
@@ -278,6 +279,21 @@ pub(crate) fn op_laws(args: &[&str]) -> String {
         }
         "MediaPlaylist" => {
             laws_case!(laws3_eq, ta, tb, tc, s => MediaPlaylist::try_from(s), observe::media_playlist)
+        }
+        "MediaSegment" => {
+            // Each text is a mini script of segment-level builder commands
+            // (`builder::build_segment`); script syntax errors are `badinput`.
+            let built = [ta, tb, tc].map(|s| guard(|| build_segment(s)));
+            if built.iter().any(|r| r.is_none()) {
+                return PANIC.to_string();
+            }
+            if built.iter().any(|r| matches!(r, Some(Err(stop)) if *stop == BADSCRIPT)) {
+                return BADINPUT.to_string();
+            }
+            match built {
+                [Some(Ok(a)), Some(Ok(b)), Some(Ok(c))] => laws3(&a, &b, &c, observe::segment),
+                _ => ERR.to_string(),
+            }
         }
         _ => BADOP.to_string(),
     }
